@@ -5,7 +5,7 @@ import json
 from pathlib import Path
 
 from . import coq
-from .tcore import Spec, Translator, Unsupported, NAT, X, F, BOOL, AGENT, DIR, OPT, RES, LIST, TUP
+from .tcore import Spec, Translator, Unsupported, NAT, X, F, BOOL, AGENT, DIR, OPT, RES, LIST, TUP, DICT
 
 GEN = coq.COQ / "gen"
 HEADER = "(* GENERATED from /repo by pv/regen.py on every run — do not edit. *)\n"
@@ -49,6 +49,9 @@ def select_specs() -> list[Spec]:
         Spec("gen_extend_and_trim_population", a, "OptimizationAbstract", "_extend_and_trim_population",
              [("self._population", "pop", LIST(AGENT)), ("new_population", "new_population", LIST(AGENT)),
               ("self._config.population_size", "population_size", NAT)], LIST(AGENT), state="self._population", attrs=cost_attr),
+        Spec("gen_generate_group_population", a, "OptimizationAbstract", "_generate_group_population",
+             [("self._population", "pop", LIST(AGENT)), ("self._config.population_size", "population_size", NAT), ("n_groups", "n_groups", NAT), ("n_agents", "n_agents", NAT),
+              ("with_residual", "with_residual", BOOL)], LIST(LIST(AGENT)), attrs={**cost_attr, "calls": {"agent.model_copy": lambda arg: ("(copy agent)", AGENT)}}),
         Spec("gen_replace_and_trim_population", a, "OptimizationAbstract", "_replace_and_trim_population",
              [("self._population", "pop", LIST(AGENT)), ("new_population", "new_population", LIST(AGENT)),
               ("self._config.population_size", "population_size", NAT)], LIST(AGENT), state="self._population", attrs=cost_attr),
@@ -186,6 +189,27 @@ def multi_specs() -> list[Spec]:
     ]
 
 
+def task_specs() -> list[Spec]:
+    """the Task-level loops and comprehensions (C14), parametric in the per-variable methods of the hand model (size, children, lowers / uppers, decode_var)"""
+    m = "models.py"
+    NV, SV, BS, DV, COORD = "(nat * var)", "svar", "bside", "dval", "coord"
+    VARS = ("self.variables", "variables", LIST(NV))
+    per_var = {"v.size": lambda arg: ("(size (snd v))", NAT)}
+    return [
+        Spec("gen_task_dimension", m, "Task", "__init__", [("variables", "variables", LIST(NV))], NAT, skip_params=("self",),
+             attrs={"extract_assign": "kwargs['space_dimension']", "calls": per_var}),
+        Spec("gen_task_get_variables", m, "Task", "get_variables", [VARS], LIST(SV),
+             attrs={"idioms": {"v.get() if v.has_children() else [v.get()]": ("(children (snd v))", LIST(SV))}}),
+        Spec("gen_task_get_bounds", m, "Task", "get_bounds", [VARS], TUP(LIST(BS), LIST(BS)),
+             attrs={"calls": {"v.get_bounds": lambda arg: ("(lowers (snd v), uppers (snd v))", TUP(LIST(BS), LIST(BS))),
+                              "np.array": lambda arg: arg(0)},
+                    "idioms": {"lb_ if v.has_children() else [lb_]": ("{lb_}", LIST(BS)), "ub_ if v.has_children() else [ub_]": ("{ub_}", LIST(BS))}}),
+        Spec("gen_task_transform_solution", m, "Task", "transform_solution", [VARS, ("x", "x", LIST(COORD))], DICT(NAT, DV), fallible=True,
+             attrs={"calls": per_var, (NV, "name"): ("fst", NAT),
+                    "idioms": {"v.decode(temp if v.has_children() else temp[0])": ("(decode_var (snd v) {temp})", RES(DV))}}),
+    ]
+
+
 def emit_group(repo: Path, fname: str, imports: str, section_vars: str, specs: list[Spec], status: dict,
                extra: str = "") -> None:
     tr = Translator(repo, specs)
@@ -234,6 +258,8 @@ def regenerate(repo: Path) -> dict:
                "Variable A : Type.\nVariable cost : A -> xnum.\nVariable POS : Type.\nVariable pos : A -> POS.\n", trend_specs(), status)
     emit_group(repo, "GenMulti.v", "From Coq Require Import List ZArith Bool Arith.\nFrom PV Require Import Xnum Select PyLib.\nImport ListNotations.\n",
                "Variable V : Type.\nVariable valid : V -> bool.\nVariable serial : V.\n", multi_specs(), status)
+    emit_group(repo, "GenTask.v", "From Coq Require Import List ZArith Bool Arith.\nFrom PV Require Import Xnum Select PyLib Argsort Vars.\nImport ListNotations.\n",
+               "", task_specs(), status)
     import ast as _ast
     try:
         mt = _ast.parse((repo / "pyvolutionary" / "models.py").read_text())
